@@ -1109,6 +1109,69 @@ example :
     verifyDSWork (fun _ => true) dm 100 [k1, k2] ⟨9, 0, 2⟩ [d] = (WRes.ok, 2) ∧
     verifyDSWork (fun _ => true) dm 100 [k1, k2] ⟨1, 0, 9⟩ [d] = (WRes.work, 1) := by decide
 
+/-! ## which error VerifyDS surfaces -/
+
+/-- **The DS error is nil exactly when `VerifyDS` accepts**, and it is
+"unsupported only" (`ErrFailedToConvertKSK` with `unsupportedOnly = true`, which
+the resolver turns into an insecure zone) exactly when the set is non-empty and
+holds no DS of a supported digest type and algorithm. `verifyDSErr` walks the
+de-duplicated, sorted DS records and candidate keys in the code's order with its
+`supported` counter and `lastErr`; every run compares the `err=` column with the
+implementation line by line. Hypotheses: the verdicts do not depend on owner /
+digest spelling beyond the identities the code collapses duplicates by. -/
+theorem verify_ds_error_nil_iff_accepts (sup : DSRec → Bool) (dmatch : DKey → Nat → Bytes → Bool) (limit : Nat)
+    (keys : List DKey) (dss : List DSRec)
+    (hdm : ∀ k k' dt w, dkeyIdent k = dkeyIdent k' → dmatch k dt w = dmatch k' dt w)
+    (hds : ∀ d d', dsIdent d = dsIdent d' → dsAuthenticates sup dmatch limit keys d = dsAuthenticates sup dmatch limit keys d') :
+    verifyDSErr sup dmatch limit keys dss = DErr.ok ↔ (verifyDS sup dmatch limit keys dss).2 = true := by
+  unfold verifyDSErr
+  rw [(dsErrLoop_spec sup dmatch limit keys _ hdm (uniqueSortedDS dss) 0 none (Or.inl rfl)).1, verifyds_ok_iff]
+  unfold uniqueSortedDS
+  exact exists_sortDedup dsIdent dsLt _ (fun a b hab => by simp only [hds a b hab]) _
+
+theorem verify_ds_error_unsupported_iff (sup : DSRec → Bool) (dmatch : DKey → Nat → Bytes → Bool) (limit : Nat)
+    (keys : List DKey) (dss : List DSRec)
+    (hdm : ∀ k k' dt w, dkeyIdent k = dkeyIdent k' → dmatch k dt w = dmatch k' dt w)
+    (hsup : ∀ d d', dsIdent d = dsIdent d' → sup d = sup d') :
+    verifyDSErr sup dmatch limit keys dss = DErr.unsupported ↔ (verifyDS sup dmatch limit keys dss).1 = true := by
+  unfold verifyDSErr
+  rw [(dsErrLoop_spec sup dmatch limit keys _ hdm (uniqueSortedDS dss) 0 none (Or.inl rfl)).2,
+    verifyds_unsupported_only_iff]
+  have hex : (∃ d ∈ uniqueSortedDS dss, sup d = true) ↔ ∃ d ∈ dss, sup d = true := by
+    unfold uniqueSortedDS
+    exact exists_sortDedup dsIdent dsLt _ (fun a b hab => by simp only [hsup a b hab]) _
+  have hall : (∀ d ∈ uniqueSortedDS dss, sup d = false) ↔ ∀ d ∈ dss, sup d = false := by
+    constructor
+    · intro h d hd
+      cases hs : sup d with
+      | false => rfl
+      | true => obtain ⟨x, hx, hsx⟩ := hex.mpr ⟨d, hd, hs⟩; rw [h x hx] at hsx; cases hsx
+    · intro h d hd
+      cases hs : sup d with
+      | false => rfl
+      | true => obtain ⟨x, hx, hsx⟩ := hex.mp ⟨d, hd, hs⟩; rw [h x hx] at hsx; cases hsx
+  have hlen : (uniqueSortedDS dss).length ≠ 0 ↔ dss ≠ [] := by
+    constructor
+    · intro h hnil; subst hnil; exact h (by simp [uniqueSortedDS, dedupBy, sortBy])
+    · intro h hz
+      cases hd : dss with
+      | nil => exact h hd
+      | cons a t =>
+        have hnil : uniqueSortedDS dss = [] := List.eq_nil_of_length_eq_zero hz
+        obtain ⟨y, hy, _⟩ := dedupBy_covers dsIdent dss [] a (by rw [hd]; simp) (by simp)
+        have : y ∈ uniqueSortedDS dss := (mem_sortBy _ _ _).mpr hy
+        rw [hnil] at this; cases this
+  rw [hlen, hall]
+  simp
+
+-- a supported DS naming no offered key: "no KSK matches", not "unsupported only"
+example : verifyDSErr (fun d => d.dt == 2) (fun _ _ _ => true) 100 [⟨257, 3, 13, 1, [46], [65], 7⟩]
+    [⟨[46], 1, 9, 13, 2, [97, 98]⟩, ⟨[46], 1, 7, 13, 3, [97, 98]⟩] = DErr.missingKSK := by decide
+example : verifyDSErr (fun d => d.dt == 2) (fun _ _ _ => true) 100 [⟨257, 3, 13, 1, [46], [65], 7⟩]
+    [⟨[46], 1, 7, 13, 2, [97]⟩] = DErr.mismatchingDS := by decide
+example : verifyDSErr (fun d => d.dt == 2) (fun _ _ _ => true) 100 [⟨257, 3, 13, 1, [46], [65], 7⟩]
+    [⟨[46], 1, 7, 13, 3, [97, 98]⟩] = DErr.unsupported := by decide
+
 /-! ## facts regenerated from the tree (one-directional side conditions) -/
 
 /-- the decode chunk is whole base64 groups and decodes to an even number of
